@@ -19,13 +19,16 @@ def run(ck):
         "a table entry can never answer for a recorded position. D2: the early return is taken exactly under `current_depth > 0 && history.lookup(hash).is_some()` "
         "and yields the draw constant 0; the root (depth 0) is always searched. D3: the lookup key is the same hasher.hash(game_state) term as the table key. "
         "D4: analyze_iterative records hash(root) before the first iteration and workers read, and the artifact returns, that same history. D5: the history "
-        "only grows (no removal/clearing anywhere). D6: recursion increases the depth, the root call passes depth 0. NOT decided: that the remaining search "
+        "only grows (no removal/clearing anywhere). D6: recursion increases the depth, the root call passes depth 0. D7: a table entry may end the search of a node only "
+        "if it was computed under the present history (entries stamped with a history generation that the probe compares, or tables invalidated whenever "
+        "the history grows) - otherwise an entry stored before a position was recorded still answers for every ancestor of that position. NOT decided: that the remaining search "
         "still finds the alternative mate (game-theoretic).")
     ck.trusted = ["rustc front end and MIR construction", "extractor decoding", "C08 (hash identifies the position)"]
     ck.not_decided = ["that the search still reports a winning evaluation via another mating move (game-theoretic value, see C06)"]
     ck.run_rule(d1_d2_d3)
     ck.run_rule(d4_root_recorded)
     ck.run_rule(d5_history_monotone)
+    ck.run_rule(d7_table_entries_follow_history)
 
 
 def d1_d2_d3(ck):
@@ -208,3 +211,58 @@ def d5_history_monotone(ck):
                 if s["k"] == "assign" and any(isinstance(e, dict) and e.get("f") == "states" and HIST in e.get("of", "") for e in s["place"]["p"]):
                     ck.fail("D5.overwrite", b.name, b.where(s["line"]), "StateHistory.states is overwritten")
     ck.ok("D5.shrinks", "no removal", "", "%d hash-map call sites in the engine inspected" % n)
+
+
+def d7_table_entries_follow_history(ck):
+    """D1 makes a recorded position itself a draw, but its ANCESTORS are answered from the table: an entry stored by an earlier
+    search, when the position was not yet recorded, carries a value and a best move computed through it.  The rule needs one of:
+    (a) every path on which a probed entry ends the node's search (returns the entry's evaluation / narrows the window) carries a
+    condition that depends on the history beyond the repetition lookup itself (a generation / epoch comparison), or
+    (b) analyze_iterative invalidates the tables when it records the root (a call on the tables other than find / insert /
+    iter_moves / saturation between the increment and the deepening loop)."""
+    prog = ck.prog
+    b = ck.body(REC, "D7")
+    tb = TermBuilder(prog, b)
+    names = {b.local_name(i): i for i in range(1, b.arg_count + 1)}
+    hist_p, tt_p = names.get("state_history"), names.get("transpositions")
+    if hist_p is None or tt_p is None:
+        ck.missing("D7", "parameters state_history/transpositions of analyze_recursive")
+        return
+    probes = [(bb, t) for bb, t in live_calls(b) if callee_name(t).endswith("TranspositionTableAccess::find") and tb.operand(t["args"][0]) == ("param", tt_p)]
+    ck.floor("D7", len(probes), 1, "table probes in analyze_recursive")
+    # paths that use the probed entry to end the node: assignments of _0 = Ok(<something read from the entry>)
+    cut = []
+    for bb, blk in enumerate(b.blocks):
+        if blk.get("cleanup"):
+            continue
+        for s in blk["stmts"]:
+            if s["k"] == "assign" and s["place"] == {"l": 0, "p": []} and "agg" in s["rv"] and s["rv"]["agg"].get("variant") == "Ok":
+                v = tb.operand(s["rv"]["ops"][0])
+                if any(x[0] == "call" and x[1].endswith("TranspositionTableAccess::find") for x in walk(v)):
+                    cut.append((bb, s.get("line")))
+    ck.floor("D7", len(cut), 1, "returns of a probed entry's evaluation")
+    guarded = []
+    for bb, line in cut:
+        g = guards_of(prog, b, bb, tb)
+        dep = [c for c, tk in g if any(x == ("param", hist_p) for x in walk(c)) and not any(is_call(x, HIST + "::lookup") for x in walk(c))]
+        guarded.append(bool(dep))
+    by_generation = bool(cut) and all(guarded)
+    it = ck.body(ITER, "D7")
+    itb = TermBuilder(prog, it)
+    inc = [bb for bb, t in live_calls(it, names=(HIST + "::increment",))]
+    invalidates = []
+    if inc:
+        after = cfg.reachable(it, [inc[0]])
+        for bb, t in live_calls(it):
+            n = callee_name(t)
+            if bb in after and ("TranspositionTableAccess::" in n or "TranspositionTable::" in n) and n.split("::")[-1] not in ("find", "insert", "iter_moves", "saturation", "with_tables", "with_memory", "small"):
+                invalidates.append(n)
+    ck.req(by_generation or bool(invalidates), "D7.stale_entries", "analyze_recursive", b.where(cut[0][1] if cut else None),
+           "a table entry stored before a position was recorded in the history still ends the search of that position's ancestors: no cut-off on a probed "
+           "entry depends on the history (no generation / epoch test) and analyze_iterative does not invalidate the tables when it records a new root. "
+           "The later search then reports the old value and the old best move through the recorded position instead of a draw",
+           "cut-offs depend on the history" if by_generation else "tables invalidated after recording the root (%s)" % invalidates[:1])
+    ck.sample({"rule": "D7", "cutoff_returns": len(cut), "history_dependent": guarded, "invalidating_calls": invalidates})
+
+
+d7_table_entries_follow_history.raw_bodies = True   # an invalidating helper must stay visible as a call
